@@ -241,12 +241,35 @@ pub fn run_syscall_case(cx: &CaseCtx, rep: &mut Report, format: &str, real_binar
 			rep.inconclusive("versatiles binary not built");
 			return;
 		};
-		let src = dir.join("src.versatiles");
-		let mut m = MemSource::new(&ts);
-		if guard::block_on(versatiles_container::write_to_filename(&mut m, src.to_str().unwrap())).is_err() {
-			rep.inconclusive("fixture write failed");
-			return;
-		}
+		// the source: a versatiles file of the project's own writer, or — every other case — a file of the *target's*
+		// format from the independent encoder, block index / directories in front of the tile data (a conversion that
+		// merely copies such a file would put a valid header on disk first)
+		let src = if preexisting {
+			let src = dir.join("src.versatiles");
+			let mut m = MemSource::new(&ts);
+			if guard::block_on(versatiles_container::write_to_filename(&mut m, src.to_str().unwrap())).is_err() {
+				rep.inconclusive("fixture write failed");
+				return;
+			}
+			src
+		} else {
+			let src = dir.join(format!("src.{format}"));
+			let mut rng = crate::rng::Rng::for_case(cx.seed, "C12sys-src", cx.case);
+			let bytes = if format == "versatiles" {
+				let mut o = crate::codec::ivt::EncOpts::random(&mut rng);
+				o.index_first = true;
+				crate::codec::ivt::encode(&ts, &o, &mut rng)
+			} else {
+				let o = crate::codec::ipm::EncOpts::random(&mut rng, ts.tiles.len());
+				crate::codec::ipm::encode(&ts, &o, &mut rng)
+			};
+			if std::fs::write(&src, bytes).is_err() {
+				rep.inconclusive("fixture write failed");
+				return;
+			}
+			rep.count("conversions_of_a_foreign_file_of_the_same_format", 1);
+			src
+		};
 		cmd.arg(bin).arg("convert").arg(&src).arg(&out);
 	} else {
 		cmd.arg(std::env::current_exe().unwrap()).arg("c12-write").arg(format).arg(cx.seed.to_string()).arg(cx.case.to_string()).arg(&out);
@@ -326,6 +349,7 @@ pub fn run_syscall_case(cx: &CaseCtx, rep: &mut Report, format: &str, real_binar
 	let fp = ts.fingerprint() ^ fnv(format.as_bytes()) ^ 0x5157;
 	let mut image: Vec<u8> = old.clone();
 	let mut bad = 0;
+	let mut reopen_samples: Vec<Vec<u8>> = vec![];
 	let mut started = false; // crash points begin once the writer has opened the file
 	for k in 0..=n {
 		if bad > 6 {
@@ -352,6 +376,9 @@ pub fn run_syscall_case(cx: &CaseCtx, rep: &mut Report, format: &str, real_binar
 			if k == n && cut.is_none() {
 				continue;
 			}
+			if cut.is_none() && (k % (n / 24 + 1) == 0 || k + 3 >= n) {
+				reopen_samples.push(img.clone());
+			}
 			rep.eval();
 			rep.count("syscall_crash_points", 1);
 			rep.nontrivial(fp ^ fnv(format!("{k}/{cut:?}").as_bytes()));
@@ -371,6 +398,49 @@ pub fn run_syscall_case(cx: &CaseCtx, rep: &mut Report, format: &str, real_binar
 		}
 		if k < n {
 			step(&mut image, &ops[k]);
+		}
+	}
+	// The same process that had the old container open now finds the crash image under the same path, with the same
+	// modification time (coarse time stamps, tools that preserve them): nothing remembered from the first open may
+	// make it look valid.
+	if preexisting && !real_binary && !old.is_empty() {
+		let again = dir.join(format!("again.{format}"));
+		let first = std::fs::write(&again, &old).is_ok() && guard::block_on(versatiles_container::get_reader(again.to_str().unwrap())).is_ok();
+		let stamp = std::fs::metadata(&again).and_then(|m| m.modified()).ok();
+		if let (true, Some(stamp)) = (first, stamp) {
+			for img in &reopen_samples {
+				if std::fs::write(&again, img).is_err() {
+					break;
+				}
+				if let Ok(f) = std::fs::OpenOptions::new().write(true).open(&again) {
+					let _ = f.set_modified(stamp);
+				}
+				rep.eval();
+				rep.count("crash_images_reopened_under_a_path_opened_before", 1);
+				let ts2 = &ts;
+				let p = again.clone();
+				let r = guard::catch(|| {
+					guard::block_on(async {
+						let Ok(reader) = versatiles_container::get_reader(p.to_str().unwrap()).await else { return Ok(false) };
+						if reader.get_parameters().tile_compression != ts2.comp.to_core() {
+							return Err("declares another tile compression".to_string());
+						}
+						for (k, v) in &ts2.tiles {
+							match reader.get_tile_data(&crate::gen::coord_of(k)).await {
+								Ok(Some(b)) if b.as_slice() == v.as_slice() => {}
+								Ok(Some(_)) => return Err(format!("tile {}/{}/{} has wrong content", k.0, k.1, k.2)),
+								Ok(None) => return Err(format!("tile {}/{}/{} is missing", k.0, k.1, k.2)),
+								Err(e) => return Err(format!("tile {}/{}/{} cannot be read: {e}", k.0, k.1, k.2)),
+							}
+						}
+						Ok(true)
+					})
+				});
+				if let Ok(Err(e)) = r {
+					rep.violation(&format!("{format}|reopen-same-path|opens-but-wrong"), "a crash image found under a path this process had opened before (same modification time) opens as a valid container but lacks / misreports tiles", json!({"format": format, "image_len": img.len(), "what": e}));
+					break;
+				}
+			}
 		}
 	}
 	if rep.wants_sample() {
